@@ -128,7 +128,7 @@ type SeedPlan struct {
 	NullPermille int
 	DirPermille  int // split evenly between error and null outcomes
 	MaxList      int
-	SchedMode    int // 0 none, 1 random yields, 2 delay by hash, 3 reverse, 4 straggler, 5 slow (ms) delay by hash
+	SchedMode    int              // 0 none, 1 random yields, 2 delay by hash, 3 reverse, 4 straggler, 5 slow (ms) delay by hash
 	ForceFault   map[string]Fault // Key.String() -> fault
 	ForceDir     map[string]int   // path|name -> outcome
 	ArgDirs      bool             // also let argument / input-field directives (name prefix "chk") fail
